@@ -1,6 +1,7 @@
 #!/bin/bash
-# Builds the framework offline from files on disk only (everything is rebuilt again by each check
-# from /repo's working tree; this only warms the build directories).
+# Builds the framework offline from files on disk only. Every check rebuilds what it needs from /repo's
+# working tree anyway (cargo decides what is stale); this warms the build directories so that the first
+# quick run is not dominated by compilation.
 set -e
 cd "$(dirname "$0")/.."
 export CARGO_NET_OFFLINE=true
@@ -8,7 +9,15 @@ mkdir -p build evidence replays
 python3 - <<'PY'
 import sys, os
 sys.path.insert(0, "lib")
-import core
+import core, simgen, armsgen
 core.build_native()
 print("native harness built")
+for v in ("linux", "macos"):
+    for p in ("dev", "release"):
+        simgen.build(v, p)
+print("sim engine built (linux/macos x dev/release)")
+arms = armsgen.parse_arms(os.path.join(core.REPO, "src", "interface", "macros.rs"))
+cl = [(i, c) for i, c in ((i, armsgen.classify(a)) for i, a in enumerate(arms)) if c]
+armsgen.build_all(cl, [0])
+print("arms programs built: %d" % len(cl))
 PY
